@@ -1,6 +1,8 @@
 import Driver.C13
 import Driver.C14
 import Driver.C19
+import Driver.C18
+import Driver.Per
 /-
   Line-protocol driver: one case per input line (`<op> <args…>`), one output line per
   case: `<model outcome>\t<oracle expectation or ->`.  Built from the very definitions the
@@ -16,6 +18,8 @@ def handle (line : String) : String :=
     if op == "tpkt_read" || op == "x224_read" then c13 toks
     else if op == "tpkt_write" || op == "x224_write" then c14 toks
     else if op == "blit" then c19 toks
+    else if op.startsWith "per_" then per toks
+    else if op == "msg_wr" || op == "msg_rd" || op == "msg_rt" then c18 toks
     else "bad-op"
 
 partial def loop (h : IO.FS.Stream) (out : IO.FS.Stream) : IO Unit := do
